@@ -105,6 +105,9 @@ def kinds_for(rng, repo, name, data, others_same, others_other, n_sampled):
     out.append({'k': 'copy', 'o': name, 'new': new_name(name, 'name')})
     if name.startswith('snapshots/'):
         out.append({'k': 'copy', 'o': name, 'new': new_name(name, 'tag')})
+        # replay / rename that keeps the object's own tag part and takes the NAME part of another snapshot
+        for other in others_same:
+            out.append({'k': 'rename', 'o': name, 'p': other, 'new': name.rpartition('-')[0] + '-' + other.rpartition('-')[2]})
     return out
 
 
@@ -136,7 +139,7 @@ def apply_concrete(orig, objects, spec):
         objects[spec['p']] = orig[o]
     elif k == 'splice':
         objects[o] = orig[o][:12] + orig[spec['p']][12:]
-    elif k == 'copy':
+    elif k in ('copy', 'rename'):
         objects[spec['new']] = orig[o]
     elif k == 'put':
         objects[o] = unb64(spec['data'])
@@ -150,7 +153,7 @@ def touched(spec):
         return {spec['o'], spec['p']}
     if k == 'replay':
         return {spec['p']}
-    if k == 'copy':
+    if k in ('copy', 'rename'):
         return {spec['new']}
     return {spec['o']}
 
@@ -384,6 +387,10 @@ class Lifted:
             else:
                 loc = f'LSnap (Garbage {self.fresh()}) (Garbage {self.fresh()})'
             return [(f'({loc})', f'Some {self.o(src)}')]
+        if k == 'rename':
+            # the contents of o under (name of p, tag of o)
+            tag = refreader.coq(self.lifter.mac_t(('Hash', self.o(spec['o']))))
+            return [(f'(LSnap (Hash {self.o(spec["p"])}) ({tag}))', f'Some {self.o(spec["o"])}')]
         raise ValueError(k)
 
     def model_file(self, cases):
@@ -457,6 +464,11 @@ def gen_cases(rng, repo, n_sampled, n_pairs):
             continue
         t = rng.choice(targets)
         cases.append({'specs': [a, b], 'target_loc': t, 'target': by_loc[t]['name']})
+    for spec in singles:
+        if spec['k'] == 'rename':
+            t = spec['p']
+            cases.append({'specs': [spec], 'target_loc': t, 'target': by_loc[t]['name']})
+            cases.append({'specs': [{'k': 'delete', 'o': t}, spec], 'target_loc': t, 'target': by_loc[t]['name'], 'oracle_only': False})
     # an UNFILTERED restore needs the newest snapshot: damage to that object must not silently yield the older versions
     newest = targets[-1]
     for spec in singles:
